@@ -36,7 +36,8 @@
 (***************************************************************************)
 EXTENDS Integers, Sequences, FiniteSets, TLC
 
-CONSTANTS MaxTamper   \* how many fields may be altered together
+CONSTANTS MaxTamper,  \* how many fields may be altered together
+          Servers     \* server constructions offered (subset of AllServers)
 
 VARIABLES base, picked, out
 vars == <<base, picked, out>>
@@ -47,7 +48,7 @@ Secrets == {"ok", "garbled", "crossed"}
 Extremes == {"+2^55", "-2^55", "+2^55+h", "+2^55-h", "-2^55+h", "-2^55-h", "+2^56", "-2^56", "+2^62", "-2^62",
              "zero", "maxint", "minint"}
 Offsets == {"now", "-tol", "-tol-1", "+tol", "+tol+1", "far", "garbage"} \cup Extremes
-Servers == {"default", "chain", "use", "chain+use"}
+AllServers == {"default", "chain", "use", "chain+use"}
 Fields  == {"ts", "method", "path", "query", "body", "sig"}
 Vias    == {"sized", "unknown", "wire"}
 
@@ -106,7 +107,7 @@ TransportIrrelevant ==
   picked => \A v \in Vias : Pass([out.req EXCEPT !.via = v]) = (out.expect = "pass")
 \* the way the server builds its middleware chain never enters the verdict
 ServerIrrelevant ==
-  picked => \A sv \in Servers : Pass([out.req EXCEPT !.server = sv]) = (out.expect = "pass")
+  picked => \A sv \in AllServers : Pass([out.req EXCEPT !.server = sv]) = (out.expect = "pass")
 OutsideToleranceDenied ==
   picked /\ out.req.ts \in {"-tol-1", "+tol+1", "far", "garbage"} \cup Extremes => out.expect = "deny"
 =============================================================================
